@@ -76,6 +76,46 @@ Theorem C12_cursor_overlay_partial : forall l s c x y,
 Proof. exact draw_cursor_overlay. Qed.
 Print Assumptions C12_cursor_overlay_partial.
 
+(** The cursor overlay in full: ANY pointer position and hot spot (a hot spot beyond the pointer
+    clips the cursor at the top/left edge), any shape and mask.  After drawCursor the screen shows the
+    cursor's pixel exactly where the cursor image, placed with its hot spot on the pointer, lies on
+    the screen and its mask bit is set; the screen's own pixel everywhere else; same size. *)
+From VD Require Import Proofs.MaskedPasteNegP.
+Theorem C12_cursor_overlay : forall l s c x y,
+  screen l = Some s -> cur l = Some c -> wf_image s -> wf_image (c_img c) -> 0 <= x -> 0 <= y ->
+  exists s', screen (draw_cursor l) = Some s' /\ iw s' = iw s /\ ih s' = ih s /\
+    get s' x y = overlay s c (l_x l) (l_y l) x y.
+Proof. exact draw_cursor_overlay_any. Qed.
+Print Assumptions C12_cursor_overlay.
+
+(** One update while a cursor is set: the screen afterwards is the reference composition of the update
+    (new data inside the rectangle, the old screen elsewhere, black where there was none; grown, never
+    shrunk) with the cursor overlaid at the pointer.  **Partial** with respect to whole histories: the
+    overlay is drawn INTO the screen, so the next update composes over a screen that already carries
+    cursor pixels (that is what the code does; the campaign compares it with PIL). *)
+Theorem C12_update_with_cursor_partial : forall l x y w h data u c l',
+  data <> [] -> frombytes (l_mode l) w h data = Some u -> cur l = Some c ->
+  wf_opt (screen l) -> wf_image (c_img c) -> 0 <= x -> 0 <= y ->
+  update_rect l x y w h data = Some l' ->
+  exists s', screen l' = Some s' /\
+    iw s' = (match screen l with None => x + iw u | Some s => Z.max (x + iw u) (iw s) end) /\
+    ih s' = (match screen l with None => y + ih u | Some s => Z.max (y + ih u) (ih s) end) /\
+    forall px py, 0 <= px -> 0 <= py ->
+      get s' px py = overlay (placed (screen l) x y u) c (l_x l) (l_y l) px py /\
+      get (placed (screen l) x y u) px py =
+        (if in_box x y (iw u) (ih u) px py then get u (px - x) (py - y) else get_opt (screen l) px py).
+Proof. exact update_rect_with_cursor. Qed.
+Print Assumptions C12_update_with_cursor_partial.
+
+(** every cursor the client ever holds meets the hypotheses above: updateCursor installs a well-formed
+    image of the announced size, with the announced hot spot and the mask rows of the message *)
+Theorem C12_cursor_installed : forall l x y w h img msk l',
+  l_nocursor l = false -> update_cursor l x y w h img msk = Some l' ->
+  exists c, cur l' = Some c /\ wf_image (c_img c) /\ iw (c_img c) = w /\ ih (c_img c) = h /\
+            c_fx c = x /\ c_fy c = y /\ c_mask c = mask_rows (Z.to_nat h) w msk.
+Proof. exact update_cursor_installs. Qed.
+Print Assumptions C12_cursor_installed.
+
 Example C12_cursor_history_nonvacuous :
   let px (r g b : Z) := [r; g; b; 0] in
   let ops := [ LUpdate 1 1 1 1 (px 10 20 30);
